@@ -187,7 +187,9 @@ def _current_obs():
 class BundledPlayer:
     kind = 'bundled'
 
-    def __init__(self, seat, team, script, policy_kind, addr, name=None, on_verdict=None):
+    def __init__(self, seat, team, script, policy_kind, addr, name=None, on_verdict=None,
+                 pre_connect=None, post_connect=None, version=18):
+        self.version = version
         self.seat = seat
         self.team = team
         self.script = script
@@ -195,6 +197,8 @@ class BundledPlayer:
         self.addr = addr
         self.name = name or f'client:{seat}'
         self.on_verdict = on_verdict
+        self.pre_connect = pre_connect
+        self.post_connect = post_connect
         self.obs = Observations(seat)
         self.verdict = None
         self.finished = False
@@ -216,6 +220,13 @@ class BundledPlayer:
         outer = self
 
         class RecClient(client_mod.Client):
+            def connect_socket(self):
+                if outer.pre_connect is not None:
+                    outer.pre_connect()
+                super().connect_socket()
+                if outer.post_connect is not None:
+                    outer.post_connect()
+
             def _connect(self):
                 try:
                     super()._connect()
@@ -224,8 +235,9 @@ class BundledPlayer:
                         outer.verdict = 'rejected'
                         outer._verdict()
                     raise
-                outer.verdict = 'seated'
-                outer._verdict()
+                if outer.verdict is None:
+                    outer.verdict = 'seated'
+                    outer._verdict()
 
             def _deal(self):
                 super()._deal()
@@ -256,6 +268,11 @@ class BundledPlayer:
             with RecClient(player=player, team_name=self.team, bidding_system=bsys,
                            playing_system=psys, ip_address=self.addr[0],
                            port=self.addr[1]) as c:
+                if self.version != 18:
+                    c.PROTOCOL_VERSION = self.version
+                # the client answers "ready for teams" as soon as it has accepted the "seated"
+                # reply: that is the moment its admission verdict is known
+                c.connection_socket = _SockProxy(c.connection_socket, self._on_send)
                 c.run()
             obs.got_end = True
             self.got_end = True
@@ -271,3 +288,27 @@ class BundledPlayer:
     def _verdict(self):
         if self.on_verdict is not None:
             self.on_verdict(self)
+
+    def _on_send(self, data):
+        if self.verdict is None and data.rstrip().lower().endswith(b'ready for teams'):
+            self.verdict = 'seated'
+            self._verdict()
+
+
+class _SockProxy:
+    """Forwards everything to the simulated socket; tells the harness what is being sent."""
+
+    def __init__(self, sock, on_send):
+        self._sock = sock
+        self._on_send = on_send
+
+    def sendall(self, data, *a):
+        self._on_send(bytes(data))
+        return self._sock.sendall(data, *a)
+
+    def send(self, data, *a):
+        self._on_send(bytes(data))
+        return self._sock.send(data, *a)
+
+    def __getattr__(self, name):
+        return getattr(self._sock, name)
